@@ -220,6 +220,14 @@ fn history_case(cx: &mut Cx) {
                             h.cx.count("not-judged:file-entry-about-to-expire");
                             continue;
                         }
+                        // a file that already exceeds the limits (written without clean-up) is cut down by the loader, and
+                        // which of several equally old peers / addresses it drops is not determined: two loads may differ
+                        let raw_peers: BTreeSet<&String> = raw_before.keys().map(|x| &x.0).collect();
+                        let raw_over_limits = raw_peers.len() > max_peers || raw_peers.iter().any(|p| raw_before.keys().filter(|x| &x.0 == *p).count() > max_addrs);
+                        if !mem_before.contains(k) && raw_over_limits {
+                            h.cx.count("not-judged:file-over-limits-is-cut-by-the-loader");
+                            continue;
+                        }
                         if !saved.contains_key(k) {
                             h.viol("merge-lost-entry", format!("{k:?} was known before the merge (memory: {}, file: {}) but is missing from the merged file", mem_before.contains(k), file_before.contains(k)));
                         }
@@ -287,6 +295,7 @@ fn history_case(cx: &mut Cx) {
     drop(h);
     cache_data_case(cx, &dir);
     corrupt_file_case(cx, &dir);
+    peers_args_case(cx, &dir);
     let _ = std::fs::remove_dir_all(&dir);
 }
 
@@ -406,6 +415,49 @@ fn cache_data_case(cx: &mut Cx, dir: &Path) {
     if saw_expired {
         cx.count("cachedata-cleanups-with-expired-entries");
         cx.nontrivial(&("cleanup", cx.index, expiry, max_peers));
+    }
+}
+
+/// A store built the way the node binary builds it (`--bootstrap-cache-dir` taking precedence over the path in the
+/// config): what it flushes must be what a store built the same way loads afterwards.
+fn peers_args_case(cx: &mut Cx, dir: &Path) {
+    let custom = dir.join(format!("custom-{}", cx.rng.gen::<u32>()));
+    let other = dir.join("configured-elsewhere").join("cache.json");
+    let _ = std::fs::create_dir_all(&custom);
+    let args = ant_bootstrap::PeersArgs { bootstrap_cache_dir: Some(custom.clone()), ..Default::default() };
+    let cfg = BootstrapCacheConfig::empty().with_cache_path(&other).with_max_peers(8).with_addrs_per_peer(3);
+    let build = || catch(|| BootstrapCacheStore::new_from_peers_args(&args, Some(cfg.clone())));
+    cx.eval();
+    cx.count("peers-args-stores");
+    let mut store = match build() {
+        Ok(Ok(s)) => s,
+        Ok(Err(_)) => return,
+        Err(p) => {
+            cx.violation("panic", format!("new_from_peers_args panicked: {p}"), json!({}));
+            return;
+        }
+    };
+    let pid = PeerId::random();
+    let addr: Multiaddr = format!("/ip4/10.1.2.3/udp/{}/quic-v1/p2p/{pid}", cx.rng.gen_range(1000..60000)).parse().expect("multiaddr");
+    store.add_addr(addr.clone());
+    store.update_addr_status(&addr, true);
+    if !matches!(catch(|| store.sync_and_flush_to_disk(cx.rng.gen())), Ok(Ok(()))) {
+        cx.violation("flush-failed", "sync_and_flush_to_disk of a store built from PeersArgs failed".to_string(), json!({}));
+        return;
+    }
+    // a second process started with the same arguments
+    let again = match build() {
+        Ok(Ok(s)) => s,
+        _ => return,
+    };
+    let loaded = BootstrapCacheStore::load_cache_data(again.config());
+    let found = loaded.as_ref().map(|d| d.peers.values().any(|a| a.0.iter().any(|x| x.addr == addr))).unwrap_or(false);
+    if !found {
+        cx.violation(
+            "flush-not-written-where-the-store-loads-from",
+            format!("an address flushed by a store built with --bootstrap-cache-dir {custom:?} is not in the file a store built the same way loads ({:?}; load ok: {})", again.config().cache_file_path, loaded.is_ok()),
+            json!({"configured_path_exists": other.exists()}),
+        );
     }
 }
 
